@@ -83,16 +83,21 @@ def load_known(path=None) -> dict:
     return json.load(f)
 
 
+def classify(res: Result):
+  """Split the findings of a run into (new, known) according to known_findings.json."""
+  known = load_known()
+  known_keys = {(k["property"], k["key"]) for k in known.get("findings", [])}
+  new, kn = [], []
+  for f in res.findings:
+    (kn if (res.prop, f.key()) in known_keys else new).append(f)
+  return new, kn
+
+
 def finish(res: Result, seed: int = 0) -> int:
   """Print verdict lines, write evidence and replay files, return the exit code."""
   known = load_known()
   known_keys = {(k["property"], k["key"]): k for k in known.get("findings", [])}
-  new, kn = [], []
-  for f in res.findings:
-    if (res.prop, f.key()) in known_keys:
-      kn.append(f)
-    else:
-      new.append(f)
+  new, kn = classify(res)
   # stale known findings are fine (defect repaired elsewhere) but are reported in the evidence
   stale = [k["key"] for (p, _), k in known_keys.items() if p == res.prop and not any(f.key() == k["key"] for f in res.findings)]
 
